@@ -549,7 +549,10 @@ def explore_task(modname, tier, casename, prefix, max_paths, opts):
     results = []
     t0 = time.time()
     n = 0
+    import gc
     while pending and n < max_paths:
+        if n % 25 == 0:
+            gc.collect()    # (automatic collection is off in the workers: see main._init_worker)
         p = pending.pop()
         res = run_path(case, p, solver, pending, opts, profile=(opts.get("profile") and len(p) == 0))
         results.append(res)
@@ -565,7 +568,9 @@ def validate_task(modname, tier, casename, model_json, opts, skip=()):
     """Proxy-layer validation: the same inputs through (a) the proxies holding exact numbers and (b) the real
     code on plain tensors; every obligation must hold in both and observables must agree."""
     import torch
+    import gc
     torch.set_num_threads(1)
+    gc.collect()
     case = load_cases(modname, tier)[casename]
     model = model_from_json(model_json)
     a = concrete_run(case, model, "pconst")
